@@ -65,7 +65,11 @@ type Sink struct {
 	After   int // calls made after the first failure
 	Err     error
 	ErrKind string // errKinds
+	Base    int    // where the current stream starts in Buf (Reset onto the same destination keeps what is there)
 }
+
+// Cur is what the current stream has put into the destination.
+func (s *Sink) Cur() []byte { return s.Buf[s.Base:] }
 
 func (s *Sink) Write(p []byte) (int, error) {
 	s.Calls++
